@@ -20,9 +20,11 @@ import (
 func init() {
 	generators["c04"] = genC04
 	generators["c03"] = genC03
+	generators["c03seq"] = genC03Seq
 	generators["c16b"] = genC16b
 	runners["resp"] = runResp
 	runners["serve"] = runServe
+	runners["serveseq"] = runServeSeq
 	runners["muxreg"] = runMuxReg
 }
 
@@ -78,7 +80,28 @@ func runResp(t *Toks) string {
 		}
 	}
 	var buf bytes.Buffer
-	c, req := requestFromTyped(&TReq{Kind: "del", ID: id, DN: []byte("cn=carrier")}, nil, &buf)
+	// the request the response is made from: nothing of it but its message id
+	// may show in the response, so the carrier varies with the case (for an
+	// entry: mostly a search, with and without typesOnly)
+	one := []byte("v")
+	carriers := []*TReq{
+		{Kind: "del", DN: []byte("cn=carrier")},
+		{Kind: "search", DN: []byte("dc=carrier"), Scope: 2, TypesOnly: true, Filter: &TFilter{Kind: "present", A: []byte("cn")}, Attrs: [][]byte{[]byte("cn")}},
+		{Kind: "search", DN: []byte("dc=carrier"), Scope: 1, Size: 1, Time: 1, Filter: &TFilter{Kind: "eq", A: []byte("cn"), V: one}},
+		{Kind: "bind", DN: []byte("cn=carrier"), PW: []byte("pw"), Ctrls: []TControl{{Kind: "managedsait", Crit: true}}},
+		{Kind: "modify", DN: []byte("cn=carrier"), Changes: []TChange{{Op: 2, Type: []byte("mail"), Vals: [][]byte{one}}}},
+		{Kind: "add", DN: []byte("cn=carrier"), AddAttrs: []TAttr{{Type: []byte("cn"), Vals: [][]byte{one}}}},
+		{Kind: "ext", Name: []byte("1.3.6.1.4.1.1466.20037")},
+		{Kind: "search", DN: nil, Scope: 0, TypesOnly: true, Filter: &TFilter{Kind: "present", A: []byte("objectClass")}, Ctrls: []TControl{{Kind: "paging", Size: 2}}},
+	}
+	h := uint64(id) + uint64(len(dn))*3 + uint64(nopt)
+	pick := int(h % uint64(len(carriers)))
+	if kind == "entry" && h%4 != 0 {
+		pick = []int{1, 2, 7}[h%3]
+	}
+	carrier := *carriers[pick]
+	carrier.ID = id
+	c, req := requestFromTyped(&carrier, nil, &buf)
 	var resp gldap.Response
 	type coded interface {
 		SetResultCode(int)
@@ -353,6 +376,10 @@ func parseRegs(t *Toks) []regSpec {
 // record their index.  Returns the per-registration error bits.
 func buildMux(regs []regSpec, ran *[]int, mu *sync.Mutex) (*gldap.Mux, string) {
 	m, _ := gldap.NewMux()
+	return m, registerOn(m, regs, ran, mu)
+}
+
+func registerOn(m *gldap.Mux, regs []regSpec, ran *[]int, mu *sync.Mutex) string {
 	errs := ""
 	for _, r := range regs {
 		var h gldap.HandlerFunc
@@ -399,7 +426,7 @@ func buildMux(regs []regSpec, ran *[]int, mu *sync.Mutex) (*gldap.Mux, string) {
 			errs += "0"
 		}
 	}
-	return m, errs
+	return errs
 }
 
 func runServe(t *Toks) string {
@@ -426,6 +453,50 @@ func runServe(t *Toks) string {
 		return "NONE"
 	}
 	return "REFUSE " + parseResponseCanon(buf.Bytes(), 0)
+}
+
+// serveseq: registration calls and served requests in any order on ONE Mux
+// (Mux methods may be called while the server is serving)
+func runServeSeq(t *Toks) string {
+	n := t.Int()
+	var ran []int
+	var mu sync.Mutex
+	m, _ := gldap.NewMux()
+	var outs []string
+	for e := 0; e < n; e++ {
+		switch t.Next() {
+		case "reg":
+			// parseRegs reads a counted list: one registration at a time here
+			t.unread("1")
+			regs := parseRegs(t)
+			registerOn(m, regs, &ran, &mu)
+		case "req":
+			q := parseReq(t)
+			ran = nil
+			var buf bytes.Buffer
+			c, req := requestFromTyped(q, m, &buf)
+			w, err := c.NewResponseWriter(3)
+			if err != nil {
+				return "HARNESS-ERROR writer"
+			}
+			c.Serve(w, req)
+			switch {
+			case len(ran) == 1 && buf.Len() == 0:
+				outs = append(outs, "RUN "+strconv.Itoa(ran[0]))
+			case len(ran) > 1:
+				outs = append(outs, "MULTI "+fmt.Sprint(ran))
+			case len(ran) == 1:
+				outs = append(outs, "RUN-AND-WROTE "+strconv.Itoa(ran[0]))
+			case buf.Len() == 0:
+				outs = append(outs, "NONE")
+			default:
+				outs = append(outs, "REFUSE "+parseResponseCanon(buf.Bytes(), 0))
+			}
+		default:
+			return "HARNESS-ERROR event"
+		}
+	}
+	return strings.Join(outs, " ; ")
 }
 
 func runMuxReg(t *Toks) string {
@@ -722,6 +793,54 @@ func genC03(g *Gen) {
 			}
 		}
 		emit(regs, reqs[g.rng.Intn(len(reqs))])
+	}
+}
+
+// histories: serve, register, serve again on one Mux.  The same request is
+// served before and after a registration that changes its answer (an earlier
+// miss that a new route now catches, a default installed or replaced later)
+func genC03Seq(g *Gen) {
+	routes := c03Routes()
+	reqs := c03Requests()
+	kindOf := func(s string) string { return strings.SplitN(s, " ", 2)[0] }
+	emit := func(evs []string) { g.emit("serveseq", listStr(evs)) }
+	// systematic: [serve q; register r; serve q] and with a default before / after
+	for _, q := range reqs {
+		for _, r1 := range routes {
+			if kindOf(r1) != kindOf(q) && g.tier != "thorough" {
+				continue
+			}
+			emit([]string{"req " + q, "reg " + insertHandler(r1, 1), "req " + q})
+			emit([]string{"reg default 90", "req " + q, "reg " + insertHandler(r1, 1), "req " + q, "reg default 91", "req " + q})
+			emit([]string{"req " + q, "reg default 90", "req " + q, "reg " + insertHandler(r1, 1), "req " + q})
+		}
+	}
+	n := g.n
+	for i := 0; i < n; i++ {
+		l := 4 + g.rng.Intn(10)
+		q := reqs[g.rng.Intn(len(reqs))]
+		var evs []string
+		for j := 0; j < l; j++ {
+			switch g.rng.Intn(10) {
+			case 0:
+				evs = append(evs, "reg default "+strconv.Itoa(100+j))
+			case 1, 2, 3:
+				// mostly routes of the request's own kind, so that answers change
+				var r string
+				for k := 0; k < 20; k++ {
+					r = routes[g.rng.Intn(len(routes))]
+					if kindOf(r) == kindOf(q) {
+						break
+					}
+				}
+				evs = append(evs, "reg "+insertHandler(r, j))
+			case 4:
+				evs = append(evs, "req "+reqs[g.rng.Intn(len(reqs))])
+			default:
+				evs = append(evs, "req "+q)
+			}
+		}
+		emit(evs)
 	}
 }
 
